@@ -45,51 +45,53 @@ type w1Op struct {
 }
 
 type w1Client struct {
-	Proto       string            `json:"proto"` // json | protobuf
-	User        string            `json:"user"`
-	ConnSubs    []string          `json:"conn_subs,omitempty"` // connect-time server-side subscriptions
-	NoPong      bool              `json:"no_pong,omitempty"`
-	PongDelayMs int               `json:"pong_delay_ms,omitempty"`
-	Labels      map[string]string `json:"labels,omitempty"`
-	ExpireInSec int               `json:"expire_in_s,omitempty"`
-	Ops         []w1Op            `json:"ops"`
+	Proto            string            `json:"proto"` // json | protobuf
+	User             string            `json:"user"`
+	ConnSubs         []string          `json:"conn_subs,omitempty"` // connect-time server-side subscriptions
+	NoPong           bool              `json:"no_pong,omitempty"`
+	PongDelayMs      int               `json:"pong_delay_ms,omitempty"`
+	ConnectHandlerMs int               `json:"on_connect_ms,omitempty"` // OnConnect takes this long
+	Labels           map[string]string `json:"labels,omitempty"`
+	ExpireInSec      int               `json:"expire_in_s,omitempty"`
+	Ops              []w1Op            `json:"ops"`
 }
 
 type w1Cfg struct {
-	HistorySize     int  `json:"history_size"`
-	HistoryTTLSec   int  `json:"history_ttl_s"`
-	ChannelLimit    int  `json:"channel_limit"`
-	PingMs          int  `json:"ping_ms"`
-	PongMs          int  `json:"pong_ms"`
-	StaleMs         int  `json:"stale_ms"`
-	PresenceMs      int  `json:"presence_ms"`
-	PresenceConc    int  `json:"presence_conc"`
-	PositionCheckMs int  `json:"position_check_ms"`
-	QueueMax        int  `json:"queue_max"`
-	ReplyNoQueue    bool `json:"reply_no_queue"`
-	WriteDelayUs    int  `json:"write_delay_us"`
-	WriteTimer      bool `json:"write_timer"`
-	Batch           bool `json:"batch"`
-	BatchLatest     bool `json:"batch_latest"`
-	DropPm          int  `json:"pubsub_drop_pm"`
-	DupPm           int  `json:"pubsub_dup_pm"`
-	DelayPm         int  `json:"pubsub_delay_pm"`
-	ExpiredDelayMs  int  `json:"expired_close_delay_ms"`
-	ChannelMaxLen   int  `json:"channel_max_length"`
-	MediumShared    bool `json:"medium_shared_position_sync"`
-	MediumLatest    bool `json:"medium_keep_latest"`
-	MediumQueue     bool `json:"medium_queue"`
-	MediumQueueMax  int  `json:"medium_queue_max"`
-	MediumDelayMs   int  `json:"medium_broadcast_delay_ms"`
-	MetaTTLSec      int  `json:"history_meta_ttl_s"`
-	HistoryMax      int  `json:"history_max_publication_limit"`
-	RecoveryMax     int  `json:"recovery_max_publication_limit"`
-	HistRacePm      int  `json:"publish_racing_history_read_pm"`
-	SubDelayPm      int  `json:"broker_subscribe_delay_pm"`
-	SubFailPm       int  `json:"broker_subscribe_fail_pm"`
-	UnsubFailPm     int  `json:"broker_unsubscribe_fail_pm"`
-	SettleMs        int  `json:"settle_ms"`
-	ShutdownAtEnd   bool `json:"shutdown_at_end"`
+	HistorySize        int  `json:"history_size"`
+	HistoryTTLSec      int  `json:"history_ttl_s"`
+	ChannelLimit       int  `json:"channel_limit"`
+	PingMs             int  `json:"ping_ms"`
+	PongMs             int  `json:"pong_ms"`
+	StaleMs            int  `json:"stale_ms"`
+	PresenceMs         int  `json:"presence_ms"`
+	PresenceConc       int  `json:"presence_conc"`
+	PositionCheckMs    int  `json:"position_check_ms"`
+	QueueMax           int  `json:"queue_max"`
+	ReplyNoQueue       bool `json:"reply_no_queue"`
+	WriteDelayUs       int  `json:"write_delay_us"`
+	WriteTimer         bool `json:"write_timer"`
+	Batch              bool `json:"batch"`
+	BatchLatest        bool `json:"batch_latest"`
+	DropPm             int  `json:"pubsub_drop_pm"`
+	DupPm              int  `json:"pubsub_dup_pm"`
+	DelayPm            int  `json:"pubsub_delay_pm"`
+	ExpiredDelayMs     int  `json:"expired_close_delay_ms"`
+	ChannelMaxLen      int  `json:"channel_max_length"`
+	MediumShared       bool `json:"medium_shared_position_sync"`
+	MediumLatest       bool `json:"medium_keep_latest"`
+	MediumQueue        bool `json:"medium_queue"`
+	MediumQueueMax     int  `json:"medium_queue_max"`
+	MediumDelayMs      int  `json:"medium_broadcast_delay_ms"`
+	ConcurrentRecovery bool `json:"concurrent_recovery"` // C02/C03: publishers run concurrently with the recovering subscribes
+	MetaTTLSec         int  `json:"history_meta_ttl_s"`
+	HistoryMax         int  `json:"history_max_publication_limit"`
+	RecoveryMax        int  `json:"recovery_max_publication_limit"`
+	HistRacePm         int  `json:"publish_racing_history_read_pm"`
+	SubDelayPm         int  `json:"broker_subscribe_delay_pm"`
+	SubFailPm          int  `json:"broker_subscribe_fail_pm"`
+	UnsubFailPm        int  `json:"broker_unsubscribe_fail_pm"`
+	SettleMs           int  `json:"settle_ms"`
+	ShutdownAtEnd      bool `json:"shutdown_at_end"`
 }
 
 type w1Script struct {
@@ -574,6 +576,8 @@ func (cl *w1SimClient) runOp(op w1Op) bool {
 			cl.w.checkRecoverReply(cl, id, req)
 		}
 		return ok
+	case "subref":
+		return cl.send(&protocol.Command{Id: cl.id(), SubRefresh: &protocol.SubRefreshRequest{Channel: op.Ch, Token: fmt.Sprintf("%d:false", op.DelayUs)}}, "sub_refresh", op.Ch)
 	case "unsub":
 		return cl.send(&protocol.Command{Id: cl.id(), Unsubscribe: &protocol.UnsubscribeRequest{Channel: op.Ch}}, "unsubscribe", op.Ch)
 	case "pub":
@@ -792,6 +796,7 @@ func (w *w1World) setup() error {
 		cl := c.Transport().(*w1Transport).cl
 		cl.onConnectRan = true
 		cl.cb("connect", "", 0)
+		defer cl.cb("connect-done", "", 0)
 		c.OnAlive(func() { cl.cb("alive", "", 0) })
 		c.OnDisconnect(func(e DisconnectEvent) { cl.cb("disconnect", "", e.Code) })
 		c.OnSubscribe(func(e SubscribeEvent, cb SubscribeCallback) {
@@ -802,6 +807,10 @@ func (w *w1World) setup() error {
 				fail = e.Token[i+1:] == "true"
 			}
 			reply := SubscribeReply{Options: w.subscribeOptions(e.Channel)}
+			if chHas(e.Channel, 'x') {
+				reply.Options.ExpireAt = time.Now().Unix() + 3600
+				reply.ClientSideRefresh = true
+			}
 			var rerr error
 			if fail {
 				rerr = ErrorPermissionDenied
@@ -849,6 +858,28 @@ func (w *w1World) setup() error {
 			cb(RPCReply{Data: []byte(`{}`)}, nil)
 		})
 		c.OnMessage(func(e MessageEvent) { cl.cb("message", "", 0) })
+		c.OnSubRefresh(func(e SubRefreshEvent, cb SubRefreshCallback) {
+			cl.cb("sub_refresh", e.Channel, 0)
+			delay := 0
+			if i := strings.IndexByte(e.Token, ':'); i >= 0 {
+				delay, _ = strconv.Atoi(e.Token[:i])
+			}
+			reply := SubRefreshReply{ExpireAt: time.Now().Unix() + 3600}
+			if delay > 0 {
+				w.pendingAsync++
+				w.s.Go(func() {
+					w.s.Sleep(time.Duration(delay) * time.Microsecond)
+					cb(reply, nil)
+					w.pendingAsync--
+				})
+				return
+			}
+			cb(reply, nil)
+		})
+		if d := cl.spec.ConnectHandlerMs; d > 0 {
+			// a slow OnConnect handler (everything above is registered already)
+			w.s.Sleep(time.Duration(d) * time.Millisecond)
+		}
 	})
 	return node.Run()
 }
@@ -898,11 +929,11 @@ func (cl *w1SimClient) accept() bool {
 // the delivery of publications to the node (PUB/SUB) can be dropped, duplicated or
 // delayed (which also reorders) for positioned channels.
 type w1PubSub struct {
-	w          *w1World
-	inner      *MemoryBroker
-	node       BrokerEventHandler
-	subscribed map[string]int // channel -> number of successful Subscribe minus Unsubscribe calls
-	inHistRace bool
+	w            *w1World
+	inner        *MemoryBroker
+	node         BrokerEventHandler
+	subscribed   map[string]int // channel -> number of successful Subscribe minus Unsubscribe calls
+	inHistRace   bool
 	resubscribed map[string]bool
 }
 
@@ -1142,7 +1173,7 @@ func w1Run(s *simrt.Sim, script any, prop string) {
 	}
 	done := make(chan struct{}, 64)
 	n := 0
-	if prop == "C43" || prop == "C02" || prop == "C03" {
+	if prop == "C43" || ((prop == "C02" || prop == "C03") && !sc.Cfg.ConcurrentRecovery) {
 		for _, ops := range sc.Pubs {
 			w.runPublisher(ops)
 		}
@@ -1167,7 +1198,7 @@ func w1Run(s *simrt.Sim, script any, prop string) {
 	}
 	for _, ops := range sc.Pubs {
 		ops := ops
-		if prop == "C43" || prop == "C02" || prop == "C03" {
+		if prop == "C43" || ((prop == "C02" || prop == "C03") && !sc.Cfg.ConcurrentRecovery) {
 			w.runPublisher(ops) // history first; the requests are compared at quiescence
 			continue
 		}
@@ -1260,7 +1291,7 @@ var w1Flavours = map[string][]string{
 	"C06": {"e_", "e_", "pe_"},
 	"C07": {"jJ_", "jJ_", "jJe_"},
 	"C08": {"_", "p_", "ejJ_"},
-	"C09": {"_", "p_", "ejJ_", "r_"},
+	"C09": {"_", "p_", "ejJ_", "r_", "x_", "x_"},
 	"C11": {"_", "_", "p_", "jJ_"},
 	"C36": {"_", "e_"},
 	"C26": {"_", "p_", "_", "e_"},
@@ -1313,6 +1344,13 @@ func w1Gen(c *simrt.Choice, prop, tier string) any {
 		cfg.Batch = true // only channels with flavour letter b are batched
 		cfg.BatchLatest = c.Intn(3) == 0
 	}
+	if prop == "C09" && c.Intn(3) == 0 {
+		// frequent server pings, so that pongs (solicited, duplicated, unsolicited) matter
+		cfg.PingMs, cfg.PongMs = 400, 300
+	}
+	if prop == "C08" && c.Intn(2) == 0 {
+		cfg.PresenceMs = 300
+	}
 	if prop == "C37" {
 		cfg.ChannelLimit = 1 + c.Intn(3)
 		cfg.ChannelMaxLen = 12
@@ -1330,6 +1368,10 @@ func w1Gen(c *simrt.Choice, prop, tier string) any {
 		cfg.HistoryTTLSec = []int{2, 60}[c.Intn(2)]
 		cfg.MetaTTLSec = []int{0, 5}[c.Intn(2)]
 		cfg.RecoveryMax = []int{0, 0, 2, 3}[c.Intn(4)]
+		if c.Intn(3) == 0 {
+			cfg.ConcurrentRecovery = true
+			cfg.HistRacePm = []int{0, 300, 600}[c.Intn(3)]
+		}
 	}
 	if prop == "C43" {
 		cfg.HistoryMax = []int{0, 1, 2, 5}[c.Intn(4)]
@@ -1408,6 +1450,9 @@ func w1Gen(c *simrt.Choice, prop, tier string) any {
 			sc.Clients = append(sc.Clients, cl)
 			continue
 		}
+		if prop == "C08" && c.Intn(3) == 0 {
+			cl.ConnectHandlerMs = []int{1, 200, 400}[c.Intn(3)]
+		}
 		// most clients connect first; a few misbehave before connecting (C09)
 		if prop == "C09" && c.Intn(3) == 0 {
 			cl.Ops = append(cl.Ops, w1Op{K: []string{"sub", "rpc", "pong", "hist", "pub", "unsub", "send", "ping"}[c.Intn(8)], Ch: pickCh()})
@@ -1417,6 +1462,9 @@ func w1Gen(c *simrt.Choice, prop, tier string) any {
 		for j := 0; j < nops; j++ {
 			var op w1Op
 			weights := []int{8, 5, 3, 1, 1, 1, 1, 1, 1, 1}
+			if prop == "C09" {
+				weights = []int{8, 5, 4, 1, 1, 1, 1, 1, 5, 1}
+			}
 			if prop == "C43" {
 				weights = []int{4, 1, 1, 0, 10, 0, 0, 0, 0, 0} // presence queries run in a quiescent phase after the scripts
 			}
@@ -1458,7 +1506,10 @@ func w1Gen(c *simrt.Choice, prop, tier string) any {
 				op = w1Op{K: "close"}
 			case 8:
 				if prop == "C09" {
-					op = w1Op{K: []string{"pong", "noid", "empty", "connect"}[c.Intn(4)], Ch: pickCh()}
+					op = w1Op{K: []string{"pong", "noid", "empty", "connect", "subref", "subref", "pong"}[c.Intn(7)], Ch: pickCh()}
+					if op.K == "subref" && c.Intn(2) == 0 {
+						op.DelayUs = []int{100, 3000}[c.Intn(2)]
+					}
 				} else if prop == "C37" {
 					if c.Intn(2) == 0 {
 						op = w1Op{K: "sublong", Ch: "_l", N: []int{10, 11, 30}[c.Intn(3)]}
